@@ -160,7 +160,8 @@ def build_objects(case):
             return MafRecord()          # zero columns: the false record
         if case["rectype"] == "maf":
             alt = r[ALTS][0] if r[ALTS] else ""
-            line = "\t".join([r[TUM], r[NOR], r[CHR], str(r[ST]), str(r[EN]), r[REF], alt, str(r[ID])])
+            pos = ["" if v is None else str(v) for v in (r[ST], r[EN])]     # None: an empty position cell
+            line = "\t".join([r[TUM], r[NOR], r[CHR], pos[0], pos[1], r[REF], alt, str(r[ID])])
             return MafRecord.from_line(line, column_names=COLS)
         o = LocatableByAllele(r[CHR], r[ST], r[EN], r[REF], list(r[ALTS]))
         o.rid = r[ID]
